@@ -6,6 +6,8 @@ package main
 
 import (
 	"fmt"
+	"net/http"
+	"net/http/httptest"
 	"net/netip"
 	"os"
 	"runtime/debug"
@@ -80,6 +82,28 @@ func newWire(dataDir string, table []entry) (w *wire, err error) {
 		return nil, err
 	}
 	return &wire{s: s, f: f, up: up}, nil
+}
+
+// newWireViaAPI builds the server for table with a placeholder in the place of
+// the last entry and lets the rewrite API put the real entry there.
+func newWireViaAPI(dataDir string, table []entry) (w *wire, err error) {
+	if len(table) == 0 {
+		return newWire(dataDir, table)
+	}
+	last := table[len(table)-1]
+	ph := entry{Domain: "placeholder.test", Answer: "9.9.9.9"}
+	start := append(append([]entry{}, table[:len(table)-1]...), ph)
+	w, err = newWire(dataDir, start)
+	if err != nil {
+		return nil, err
+	}
+	body := fmt.Sprintf(`{"target":{"domain":%q,"answer":%q},"update":{"domain":%q,"answer":%q}}`, ph.Domain, ph.Answer, last.Domain, last.Answer)
+	rec := httptest.NewRecorder()
+	w.f.VerifRewriteUpdate(rec, httptest.NewRequest(http.MethodPut, "/control/rewrite/update", strings.NewReader(body)))
+	if rec.Code != http.StatusOK {
+		return nil, fmt.Errorf("PUT /control/rewrite/update answered %d: %s", rec.Code, rec.Body.String())
+	}
+	return w, nil
 }
 
 // wireObs is what one request produced.
@@ -475,10 +499,24 @@ func (e *env) wireTable(base []entry) {
 		}
 		orders = append(orders, rev)
 	}
-	for _, table := range orders {
+	// A third server reaches the table through the API: it starts with a
+	// placeholder instead of the last entry, which PUT /control/rewrite/update
+	// then replaces (for one-entry tables the entry is added by the API).
+	viaAPI := len(orders)
+	orders = append(orders, orders[0])
+	for oi, table := range orders {
 		cs := caseT{Part: "wire", Table: table}
+		if oi == viaAPI {
+			cs.Part = "wire-via-api"
+		}
 		e.g.cur.Store(&cs)
-		w, err := newWire(c.TmpDir, table)
+		var w *wire
+		var err error
+		if oi == viaAPI {
+			w, err = newWireViaAPI(c.TmpDir, table)
+		} else {
+			w, err = newWire(c.TmpDir, table)
+		}
 		e.g.beat.Add(1)
 		if err != nil {
 			c.Violation("wire:server-build-fails", fmt.Sprintf("table %s: %v", tableStr(table), err), cs)
